@@ -393,6 +393,9 @@ def classes_of(e: E, parent: E | None, i: int, ctx: str) -> list[str]:
 		out.append('flat:dict-get')
 	if _unsigned_call(e) and not (parent is not None and parent.k == 'call' and parent.val == 'int'):
 		out.append('unsigned:len')
+	if e.k == 'bin' and e.op == '%' and e.ty == 'float' and e.kids[1].ty == 'int' and e.kids[0].k == 'bin' and e.kids[0].op in ('*', '/', '%') \
+			and not e.kids[0].paren and e.kids[0].ty == 'float' and e.kids[0].kids[1].ty == 'int':
+		out.append('fmod:left-type')
 	if parent is not None and parent.k == 'un' and parent.op == '-' and e.k == 'attr' and e.val == 'value' and e.lo < 0 and not e.paren:
 		out.append('lex:minus-enum-value')
 	if e.k == 'call' and e.val in ('int', 'float') and len(e.kids) == 1 and e.kids[0].k == 'var' and not e.kids[0].paren \
@@ -421,6 +424,8 @@ CLASS_WHAT = {
 	'flat:len-arg': '`len(x + y)` is emitted as `x + y.size()`',
 	'flat:range-arg': '`range(a & b)` / `range(x if c else y)` is emitted as `i < a & b` / `i < c ? x : y`',
 	'flat:dict-get': '`d.get(k, v) + 1` is emitted as the bare conditional `d.contains(k) ? d[k] : v + 1`',
+	'fmod:left-type': '`x * a % b` (float x, ints a, b): the `%` template is chosen from the type of the previous right element (`primary_raw = right_raw`), '
+		'not of the accumulated float: emitted `x * a % b` / `fmod(x, a) % b`, which g++ rejects (invalid operands to binary %)',
 	'lex:minus-enum-value': '`-E.M.value` for a member with a negative value (`M = -3`) inlines the constant after the sign: `--3` (g++: lvalue required as decrement operand)',
 	'cast:nested': '`float(int(float(a))) - 1` is emitted as `(float((int((float(a)))))) - 1`: `(int((float(a))))` reads as a type-id (function type), '
 		'so a following `-`/`+`/`*`/`&` operand makes it a C-style cast: g++ rejects ("invalid cast to function type")',
@@ -455,6 +460,8 @@ def repaired(p: Prog, keep: set[str]) -> Prog:
 				for j, o in enumerate(e.op):
 					parts.append(E('cmp', 'bool', [copy.deepcopy(e.kids[j]), copy.deepcopy(e.kids[j + 1])], op=[o]))
 				e.k, e.op, e.kids = 'bool', 'and', parts
+			elif c == 'fmod:left-type':
+				e.kids[0].paren = True
 			elif c == 'cast:nested':
 				v = e.kids[0]
 				zero = E('lit', v.ty, val=0.0 if v.ty == 'float' else 0, fe=0)
@@ -962,6 +969,14 @@ class Gen:
 			a = self.gen_float(env, d - 1)
 			self.count('float:neg')
 			return E('un', 'float', [a], op='-', hi=a.hi, fe=a.fe)
+		if x < 0.89 and x >= 0.85:
+			# flat Term chain float * int % int (the `%` must still be fmod: its left operand is the float product)
+			a = self.gen_float(env, 0)
+			i1, i2 = self.lit_int(1, 4), self.lit_int(2, 9)
+			if a.hi * 4 * 2 ** a.fe < 2 ** 22:
+				self.count('float:chain*%')
+				prod = E('bin', 'float', [E('call', 'float', [a], val='abs', hi=a.hi, fe=a.fe), i1], op='*', hi=a.hi * 4, fe=a.fe)
+				return E('bin', 'float', [prod, i2], op='%', hi=9, fe=a.fe)
 		if x < 0.93:
 			a = self.gen_float(env, d - 1)
 			m = r.choice([1.5, 2.0, 3.0, 0.75])
@@ -1718,6 +1733,9 @@ PROBE_WHAT = {
 	'cxx:unmapped-method': 'list/str/dict methods without a C++ mapping are passed through under their Python or provisional (data/i18n.yml FIXME) name: '
 		'sort/reverse/index/remove, count/split/upper/lower/replace/strip/join, update — g++ rejects',
 	'ub:negative-index': '`xs[-1]` is emitted verbatim: out-of-bounds access in C++ (aborts under -D_GLIBCXX_ASSERTIONS)',
+	'reject:block-scoped-name': 'a name first assigned inside a nested block (both if/else branches, a while/for body, the for variable) and read after the block '
+		'is valid Python (function-level scope) but is rejected: Errors.UnresolvedSymbol at the read, and Errors.Fatal <- RecursionError when the read is in `v = v + 1` '
+		'(the scope condition of C01.stmt_agree; the emitter never hoists a declaration)',
 }
 
 
@@ -1773,6 +1791,15 @@ def probe_program(rng: random.Random, key: str | None = None) -> tuple[str, dict
 			ret = 'str'
 			args = {'upper': '', 'lower': '', 'replace': f"'{lit[:1]}', 'zz'", 'strip': f"'{lit[:1]}'"}[m]
 			body = f"\treturn s.{m}({args}) + '{lit}'\n"
+	elif key == 'reject:block-scoped-name':
+		v = rng.choice(['v', 'w', 'acc'])
+		use = rng.choice([f'\treturn {v} + {e2}\n', f'\t{v} = {v} + {e2}\n\treturn {v}\n'])
+		body = rng.choice([
+			f'\tif {cond}:\n\t\t{v} = {e1}\n\telse:\n\t\t{v} = {rng.randint(0, 9)}\n',
+			f'\ti = 0\n\twhile i < {rng.randint(1, 3)}:\n\t\t{v} = i + {e1}\n\t\ti = i + 1\n',
+			f'\tfor i in range({rng.randint(1, 3)}):\n\t\t{v} = i + {e1}\n',
+			f'\tif {cond}:\n\t\t{v} = {e1}\n\telif {a} > {b}:\n\t\t{v} = {a}\n\telse:\n\t\t{v} = {b}\n',
+		]) + use
 	else:
 		k = rng.randint(1, 3)
 		body = f'\txs = [{e1}, {e2}, {a}]\n\treturn xs[-{k}] + {b}\n'
